@@ -315,13 +315,32 @@ def _replay_unit(mod, unit, rec):
 # Parent side
 # ---------------------------------------------------------------------------------------------
 
-def _pool_map(jobs):
+def _pool_map(jobs, budget_s):
+    """Run the jobs on the worker pool.  `budget_s` is a watchdog for the whole run: units still running when it
+    expires (e.g. code under test that no longer terminates) are killed and reported as a harness error --
+    inconclusive, never a verdict."""
     if not jobs:
         return []
     ctx = mp.get_context("fork")
     n = max(1, min(NPROC, len(jobs)))
-    with ctx.Pool(n, maxtasksperchild=1) as pool:
-        return list(pool.imap_unordered(_worker, jobs, chunksize=1))
+    pool = ctx.Pool(n, maxtasksperchild=1)
+    try:
+        pending = {i: pool.apply_async(_worker, (job,)) for i, job in enumerate(jobs)}
+        results = []
+        deadline = time.time() + budget_s
+        while pending and time.time() < deadline:
+            for i in [i for i, r in pending.items() if r.ready()]:
+                results.append(pending.pop(i).get())
+            time.sleep(0.05)
+        for i in pending:
+            out = Rec(jobs[i][0], jobs[i][1].get("name", "?")).to_dict()
+            out["error"] = f"unit {jobs[i][1].get('name')} did not finish within the watchdog budget of {budget_s} s: inconclusive"
+            out["wall_s"] = budget_s
+            results.append(out)
+        return results
+    finally:
+        pool.terminate()
+        pool.join()
 
 
 def write_replay(prop_id, failure, seed, tier):
@@ -368,8 +387,9 @@ def run_check(prop_id, tier, seed, replay_path=None):
             u.setdefault("shard", k)
             jobs.append((prop_id, u, seed * 1000 + k, tier))
 
+    budget = float(os.environ.get("VERIF_WATCHDOG_S") or getattr(mod, "WATCHDOG_S", {}).get(tier, 1500 if tier == "quick" else 4 * 3600))
     try:
-        results = _pool_map(jobs)
+        results = _pool_map(jobs, budget)
     finally:
         if replay_path is None and hasattr(mod, "cleanup"):
             mod.cleanup(units)
